@@ -319,6 +319,21 @@ func c05(c *core.Ctx, r *core.Report) {
 		r.Check(isCall && okIn && !core.InLoop(s.Block()), "C05.R4", cons, c.Pos(s.Pos()), x.what+" is called from exactly one synchronous site outside any loop, in the expected role function")
 	}
 
+	// ---- R5 once per name: creator exclusivity + registry typestate (creation never re-runs, one early reference)
+	creatorExclusive(c, r, "C05.R5", l)
+	for _, T := range c.Implementors(c.Iface("container", "SingletonComponentRegistry")) {
+		sub := core.NewReport("C04", c.Tier, 0)
+		c04Explore(c, sub, T)
+		for _, o := range sub.Obls {
+			if o.Rule == "C04.A1" || o.Rule == "C04.A2" || o.Rule == "C04.A3" || o.Verdict == core.Undecided {
+				o2 := *o
+				o2.Rule = "C05.R5"
+				o2.Construct = o.Rule + ":" + o.Construct
+				r.Obls = append(r.Obls, &o2)
+			}
+		}
+	}
+	accessorRules(c, r, "C05.R5", l)
 	// ---- R6 lazy
 	c05Lazy(c, r, l)
 
